@@ -43,7 +43,15 @@ def to_array(eng, v: VSeq):
     k = fresh_bound("k")
     eng.assume(z3.ForAll([k], z3.Implies(z3.And(0 <= k, k < v.n), a[k] == v.at(k)), patterns=[a[k]]))
     v._mat = a
+    for part, start in getattr(v, "parts", None) or []:
+        if part.arr is not None:
+            # a[k] == part.arr[k + delta] for start <= k < start + part.n
+            eng.agree.setdefault(a.get_id(), []).append((part.arr, start, z3.simplify(start + part.n), z3.simplify(part.off - start)))
     return a
+
+
+def agreements(eng, A):
+    return eng.agree.get(A.get_id(), [])
 
 
 def arr_off(eng, v: VSeq):
@@ -120,6 +128,9 @@ def le128_sym(eng, b, lo, hi):
         p = pow2(eng, 7 * (hi_t - lo_t))
         if p is not None:
             eng.assume(z3.Implies(hi_t >= lo_t, t < p))
+    if "le128_shift_ext" not in eng.disabled_facts:
+        for B, alo, ahi, delta in agreements(eng, A):       # LEMMA le128_shift_ext
+            eng.assume(z3.Implies(z3.And(alo <= lo_t, hi_t <= ahi), t == le128_f(B, lo_t + delta, hi_t + delta)))
     return VInt(t)
 
 
@@ -257,6 +268,20 @@ def msb_end_sym(eng, b, i):
     return VInt(z3.simplify(t - off))
 
 
+@spec("msb_run", lambda b, lo, hi: lo < hi and all(b[k] >= 128 for k in range(lo, hi - 1)) and b[hi - 1] < 128,
+      "b[lo:hi] is one complete MSB-continued run: continuation bits on all bytes but the last")
+def msb_run_sym(eng, b, lo, hi):
+    b = seqarg(eng, b)
+    lo_t, hi_t = as_int(eng, lo), as_int(eng, hi)
+    k = fresh_bound("k")
+    body = z3.And(lo_t < hi_t, z3.ForAll([k], z3.Implies(z3.And(lo_t <= k, k < hi_t - 1), b.at(k) >= 128)), b.at(hi_t - 1) < 128)
+    if "msb_run_end" not in eng.disabled_facts:
+        # LEMMA msb_run_end: a complete run starting at lo ends exactly at hi
+        A, off = arr_off(eng, b)
+        eng.assume(z3.Implies(body, msb_end_f(A, lo_t + off) == hi_t + off))
+    return VBool(body)
+
+
 @spec("set_field", None, "harness helper: assign a (ghost) field of an object")
 def set_field_sym(eng, obj, name, value):
     eng.set_attr(obj, name.s, value, None)
@@ -322,13 +347,25 @@ def ofsval_sym(eng, b, lo, hi):
     # one-step unfolding of the definition
     eng.assume(z3.Implies(hi_t == lo_t + 1, t == A[lo_t] % 128))
     eng.assume(z3.Implies(hi_t > lo_t + 1, t == (ofsval_f(A, lo_t, hi_t - 1) + 1) * 128 + A[hi_t - 1] % 128))
+    if "ofsval_bound" not in eng.disabled_facts:
+        eng.assume(z3.Implies(hi_t > lo_t, t >= 0))
+        eng.assume(z3.Implies(hi_t - 1 > lo_t, ofsval_f(A, lo_t, hi_t - 1) >= 0))
+    if "ofsval_prepend" not in eng.disabled_facts and eng.goal_mode:
+        # LEMMA ofsval_prepend: peeling the first byte instead of the last
+        p = pow2(eng, 7 * (hi_t - lo_t - 1))
+        if p is not None:
+            eng.assume(z3.Implies(hi_t > lo_t + 1, t == (A[lo_t] % 128 + 1) * p + ofsval_f(A, lo_t + 1, hi_t)))
+            eng.assume(z3.Implies(hi_t > lo_t + 1, ofsval_f(A, lo_t + 1, hi_t) >= 0))
+    if "ofsval_shift_ext" not in eng.disabled_facts:
+        for B, alo, ahi, delta in agreements(eng, A):       # LEMMA ofsval_shift_ext
+            eng.assume(z3.Implies(z3.And(alo <= lo_t, hi_t <= ahi, lo_t < hi_t), t == ofsval_f(B, lo_t + delta, hi_t + delta)))
     if "ofsval_frame" not in eng.disabled_facts:
         cur = A
         for _ in range(3):       # LEMMA ofsval_store_frame: a store outside [lo, hi) does not change the value
             if not z3.is_store(cur):
                 break
             base, idx, _v = cur.children()
-            for h in (hi_t, hi_t - 1):
-                eng.assume(z3.Implies(z3.Or(idx >= h, idx < lo_t), ofsval_f(cur, lo_t, h) == ofsval_f(base, lo_t, h)))
+            for l2, h in ((lo_t, hi_t), (lo_t, hi_t - 1), (lo_t + 1, hi_t)):
+                eng.assume(z3.Implies(z3.And(l2 < h, z3.Or(idx >= h, idx < l2)), ofsval_f(cur, l2, h) == ofsval_f(base, l2, h)))
             cur = base
     return VInt(t)
